@@ -36,7 +36,8 @@ From RU Require Import Base.Prelude Base.Utf8 Base.Utf8Facts Model.AsciiSet Gen.
   Proofs.C03_WF Proofs.C06_List Proofs.C06_WFI Proofs.C06_Tail
   Proofs.C08_Input Proofs.C08_Simple Proofs.C08_Contain Proofs.C08_NoAuth Proofs.C08_Absolute Proofs.C08_Relative Proofs.C08_RelEval
   Proofs.C08_RelPath Proofs.C08_RelJoin Proofs.C08_RelMr Proofs.C08_RelLaw Proofs.C08_RelCanon Proofs.C08_RelNoAuth
-  Proofs.C02_AuthParts Proofs.C02_Auth Proofs.C02_AuthSp Proofs.C02_AuthMain Proofs.C08_AbsNonfile Proofs.C08_RelAuth Proofs.C08_RelRecog Proofs.C08_Parsed Proofs.C08_ContainFile.
+  Proofs.C02_AuthParts Proofs.C02_Auth Proofs.C02_AuthSp Proofs.C02_AuthMain Proofs.C08_AbsNonfile Proofs.C08_RelAuth Proofs.C08_RelRecog Proofs.C08_Parsed Proofs.C08_ContainFile
+  Proofs.C02_Hist.
 From RU Require Properties.C02.
 Open Scope N_scope.
 Open Scope list_scope.
@@ -190,9 +191,20 @@ Proof. exact F_C08_5_fixed. Qed.
 Print Assumptions C08_5_fixed.
 
 (* ================= 5. an absolute URL's own serialization resolves to itself ================= *)
+(* FIRST formulation, superseded: its host hypothesis HostOK (Proofs/C02_Reach.v) cannot be met by url::Host
+   (Properties/C02.v C02_HostOK_old_unsat_model), so it says nothing about the real host functions; kept under its
+   name because the notes of other theorems refer to it *)
 Definition C08_absolute_statement : Prop :=
   forall dbg hp hpo hd, HostOK hp hpo hd ->
   forall u b, Reachable dbg hp hpo hd u -> Reachable dbg hp hpo hd b ->
+  join dbg hp hpo hd b (utf8_lossy (ser u)) = POk u.
+(* the statement under the corrected quantifier of C02 (Proofs/C02_Hist.v): host functions constrained by
+   HostOK2 = HostRT /\ host_above /\ ip_clause - proved of the host model Model/Host.v under IdnaOK
+   (C02_HostOK2_model) - and Reachable2 (Reachable minus the class Known_F_C02_9).  Not proved in full; proved
+   parts: C08_absolute_nonfile2, C08_absolute_parsed_nonfile2 below *)
+Definition C08_absolute_statement2 : Prop :=
+  forall dbg hp hpo hd, HostOK2 hp hpo hd ->
+  forall u b, Reachable2 dbg hp hpo hd u -> Reachable2 dbg hp hpo hd b ->
   join dbg hp hpo hd b (utf8_lossy (ser u)) = POk u.
 
 (* the dispatch lemma, for ALL texts of the shape and all bases (also cannot-be-a-base ones): the base is
@@ -265,6 +277,17 @@ Theorem C08_absolute_nonfile_HostOK : forall dbg hp hpo hd, HostOK hp hpo hd -> 
   join dbg hp hpo hd b (utf8_lossy (ser u)) = POk u.
 Proof. intros dbg hp hpo hd HOK HAb b input u. exact (absolute_nonfile_HostOK dbg hp hpo hd b input u HOK HAb). Qed.
 Print Assumptions C08_absolute_nonfile_HostOK.
+(* the same under HostOK2, the hypothesis of C08_absolute_statement2 (satisfiable: C02_HostOK2_model) *)
+Theorem C08_absolute_nonfile2 : forall dbg hp hpo hd, HostOK2 hp hpo hd ->
+  forall b input u, usv_list input -> nonfile_input input = true ->
+  parse_url dbg hp hpo hd None None input = POk u ->
+  join dbg hp hpo hd b (utf8_lossy (ser u)) = POk u.
+Proof. intros dbg hp hpo hd (HRT & HAb & _) b input u. exact (absolute_nonfile dbg hp hpo hd HRT b input u HAb). Qed.
+Check C08_absolute_nonfile2 : forall dbg hp hpo hd, HostOK2 hp hpo hd ->
+  forall b input u, usv_list input -> nonfile_input input = true ->
+  parse_url dbg hp hpo hd None None input = POk u ->
+  parse_url dbg hp hpo hd None (Some b) (utf8_lossy (ser u)) = POk u.
+Print Assumptions C08_absolute_nonfile2.
 (* non-vacuity: the host hypotheses have an instance (C02_host_hypotheses_inhabited); with it five inputs of the
    class (special with '\' and a default port, special without slashes, non-special with credentials and port,
    authority-less with the "/." marker, opaque) resolve to themselves against special, file, opaque bases *)
@@ -292,8 +315,16 @@ Print Assumptions C08_absolute_noauth.
 Definition parsed dbg hp hpo hd (u : url) : Prop :=
   exists input, usv_list input /\ parse_url dbg hp hpo hd None None input = POk u.
 
+(* FIRST formulation, superseded (HostOK cannot be met by url::Host, see C08_absolute_statement) *)
 Definition C08_relative_statement : Prop :=
   forall dbg hp hpo hd, HostOK hp hpo hd ->
+  forall b t r, parsed dbg hp hpo hd b -> parsed dbg hp hpo hd t ->
+  mr_ok b t = true -> make_relative dbg b t = Some (Some r) ->
+  join dbg hp hpo hd b r = POk t.
+(* the statement under the satisfiable host hypothesis HostOK2 of C02 (Proofs/C02_Hist.v).  Proved for every base
+   that is not a file URL: C08_relative_nonfile2 below *)
+Definition C08_relative_statement2 : Prop :=
+  forall dbg hp hpo hd, HostOK2 hp hpo hd ->
   forall b t r, parsed dbg hp hpo hd b -> parsed dbg hp hpo hd t ->
   mr_ok b t = true -> make_relative dbg b t = Some (Some r) ->
   join dbg hp hpo hd b r = POk t.
@@ -451,6 +482,40 @@ Proof.
   exact (absolute_parsed_nonfile dbg hp hpo hd HRT HAb b input u Hu Hp Hnf).
 Qed.
 Print Assumptions C08_absolute_parsed_nonfile.
+
+(* the three theorems above under HostOK2 (= HostRT /\ host_above /\ ip_clause), the hypothesis of the ...statement2
+   forms, which the host model meets (C02_HostOK2_model); the versions under the old HostOK (..._HostOK) are vacuous
+   for url::Host and superseded by these.  C08_relative_nonfile2 IS C08_relative_statement2 with the one extra
+   premise that the base is not a file URL *)
+Theorem C08_relative_parsed2 : forall dbg hp hpo hd, HostOK2 hp hpo hd ->
+  forall bi ti b t r, usv_list bi -> usv_list ti ->
+  nonfile_input bi = true -> nonfile_input ti = true ->
+  parse_url dbg hp hpo hd None None bi = POk b -> parse_url dbg hp hpo hd None None ti = POk t ->
+  mr_ok b t = true -> make_relative dbg b t = Some (Some r) ->
+  join dbg hp hpo hd b r = POk t.
+Proof. intros dbg hp hpo hd (HRT & HAb & _) bi ti b t r. exact (relative_parsed dbg hp hpo hd HRT bi ti b t r HAb). Qed.
+Print Assumptions C08_relative_parsed2.
+Theorem C08_relative_nonfile2 : forall dbg hp hpo hd, HostOK2 hp hpo hd ->
+  forall b t r, parsed dbg hp hpo hd b -> parsed dbg hp hpo hd t -> st_is_file (b_st b) = false ->
+  mr_ok b t = true -> make_relative dbg b t = Some (Some r) ->
+  join dbg hp hpo hd b r = POk t.
+Proof. intros dbg hp hpo hd (HRT & HAb & _). exact (C08_relative_nonfile dbg hp hpo hd HRT HAb). Qed.
+Check C08_relative_nonfile2 : forall dbg hp hpo hd, HostOK2 hp hpo hd ->
+  forall b t r,
+  (exists input, usv_list input /\ parse_url dbg hp hpo hd None None input = POk b) ->
+  (exists input, usv_list input /\ parse_url dbg hp hpo hd None None input = POk t) ->
+  st_is_file (scheme_type_of (nfirstn (scheme_end b) (ser b))) = false ->
+  mr_ok b t = true -> make_relative dbg b t = Some (Some r) ->
+  parse_url dbg hp hpo hd None (Some b) r = POk t.
+Print Assumptions C08_relative_nonfile2.
+Theorem C08_absolute_parsed_nonfile2 : forall dbg hp hpo hd, HostOK2 hp hpo hd ->
+  forall u b, parsed dbg hp hpo hd u -> st_is_file (b_st u) = false ->
+  join dbg hp hpo hd b (utf8_lossy (ser u)) = POk u.
+Proof. intros dbg hp hpo hd (HRT & HAb & _). exact (C08_absolute_parsed_nonfile dbg hp hpo hd HRT HAb). Qed.
+Print Assumptions C08_absolute_parsed_nonfile2.
+(* the premise of the three is met: the host model with the IDNA function idna_clean (Properties/C02.v) *)
+Example C08_HostOK2_inhabited : exists hp hpo hd, HostOK2 hp hpo hd.
+Proof. exact (ex_intro _ _ (ex_intro _ _ (ex_intro _ _ (proj2 Properties.C02.C02_HostOK2_inhabited)))). Qed.
 
 (* ... and for records of ANY origin (parser, join, setters) that are in one of C02's three hierarchical canonical
    forms (Properties/C02.v: canon_noauth, canon_auth .. STNotSpecial, canon_special) *)
